@@ -25,7 +25,7 @@ ASSUMPTIONS = [
 BUDGET = {"quick": (16, 0), "thorough": (16, 0)}
 
 HISTORIES = ["term-old", "quit-old", "term-new", "quit-new", "int-old", "int-new", "usr2-twice", "upgrade-twice", "rollback-then-upgrade",
-             "daemon-rollback", "systemd-term-old", "term-old-at-once", "quit-old-at-once"]
+             "daemon-rollback", "systemd-term-old", "term-old-at-once", "quit-old-at-once", "daemon-rollback-term-first"]
 
 
 def extra_cases(tier, seed, shard, nshards):
@@ -92,7 +92,7 @@ def run_case(case):
     # "-at-once": the old master is stopped right after USR2, before the re-executed one has started up (a pre_exec hook that takes
     # a moment makes the order certain): the new master finds its parent already gone
     srv = renv.Server(kind=kind, workers=2, bind=bind, graceful=3, timeout=30, threads=2 if kind == "gthread" else None,
-                      daemon=(h == "daemon-rollback"), systemd=h.startswith("systemd"),
+                      daemon=h.startswith("daemon-rollback"), systemd=h.startswith("systemd"),
                       conf_lines=["import time", "def pre_exec(server):", "    time.sleep(0.7)"] if at_once else ())
     vio = []
 
@@ -230,6 +230,27 @@ def run_case(case):
                 expect_serving(h)
                 if not wait_for(lambda: len(renv.children(old)) == 2, 4):
                     V("rollback", "old-master-worker-count-changed", {"children": renv.children(old)}, 2)
+            elif h == "daemon-rollback-term-first":
+                # WINCH the old master (no workers left), stop the NEW master while the old one has no worker at all, bring the old
+                # one's workers back with HUP, then upgrade again
+                os.kill(old, signal.SIGWINCH)
+                if not wait_for(lambda: renv.children(old) == [new], 8):
+                    V("winch", "old-master-kept-workers-after-winch", {"children": renv.children(old), "new": new}, "only the new master as child")
+                kill_and_wait(new, signal.SIGTERM, False)
+                if not wait_for(lambda: not os.path.exists(pf2) and not [p for p in renv.all_pids() if (renv.stat(p) or {}).get("ppid") == old], 5):
+                    zs = [(p, (renv.stat(p) or {}).get("state")) for p in renv.all_pids() if (renv.stat(p) or {}).get("ppid") == old]
+                    V("rollback", "new-master-not-reaped-by-the-old-one", {"children_of_old": zs, "pidfile2": read_pid(pf2)}, "no child left, no '.2' pid file")
+                os.kill(old, signal.SIGHUP)
+                if not wait_for(lambda: len(renv.children(old)) == 2, 8):
+                    V("rollback", "old-master-workers-not-restored-by-hup", {"children": renv.children(old)}, "2 workers again")
+                expect_serving("rollback")
+                if read_pid(pf) != old:
+                    V("rollback", "pidfiles-wrong-after-new-master-left", {"pidfile": read_pid(pf), "pidfile2": read_pid(pf2)}, {"pidfile": old})
+                new2 = upgrade(old, "after-rollback")
+                if new2:
+                    kill_and_wait(old, signal.SIGTERM, True)
+                    expect_promoted(new2, old, "after-rollback")
+                    expect_serving("after-rollback")
             elif h == "rollback-then-upgrade":
                 kill_and_wait(new, signal.SIGTERM, False)
                 wait_for(lambda: not os.path.exists(pf2), 4)
